@@ -199,3 +199,8 @@ def run(ctx):
     ctx.trusted += ["Coq 8.16.1 kernel + vm_compute", "coq/C01/VyCore.v as the reading of the documented evaluation order",
                     "pyrevm (EVM)", "eth_abi"]
     ctx.assumptions += ["theorems are about the reference semantics; the compiler is tied to it on the matrix programs only"]
+
+
+def prebuild(ctx):
+    """Called by setup_cmd: compile the static development once (content-keyed reuse afterwards)."""
+    ctx.coq_build_cached(COQ_FILES)
